@@ -220,8 +220,69 @@ Section Block.
           cbn [andb]; try reflexivity; try lia.
   Qed.
 
-  Lemma tail_rows_is i m : tail_rows K s R i m = for_res (seq i (length m - i)) tail_outer m.
-  Proof. reflexivity. Qed.
+  (* ---------- the translated tail loop is that loop ---------- *)
+
+  Lemma tail_consts : tail_cols = 32 /\ tail_i_step = 1.
+  Proof. split; reflexivity. Qed.
+
+  Lemma tail_cond_iff i L rows : tail_cond i 0 R L rows = true <-> i < rows.
+  Proof. unfold tail_cond. rewrite ?andb_true_iff, ?Nat.leb_le, ?Nat.ltb_lt. lia. Qed.
+
+  Lemma tail_guard_iff i j L rows : tail_guard i j R L rows = true <-> j * R + i < L.
+  Proof. unfold tail_guard. rewrite ?andb_true_iff, ?Nat.leb_le, ?Nat.ltb_lt. lia. Qed.
+
+  Lemma tail_idx i j L rows :
+    tail_row i j R L rows = i /\ tail_col i j R L rows = j /\ tail_src i j R L rows = j * R + i.
+  Proof. unfold tail_row, tail_col, tail_src. repeat split; lia. Qed.
+
+  Lemma tail_body_eq i j m2 : tail_body K s R i j m2 = tail_inner i j m2.
+  Proof.
+    unfold tail_body, tail_inner.
+    destruct (tail_idx i j (length s) (length m2)) as (Er & Ec & Es).
+    pose proof (tail_guard_iff i j (length s) (length m2)) as G.
+    destruct (tail_guard i j R (length s) (length m2)); destruct (Nat.ltb_spec (j * R + i) (length s)) as [Hlt|Hge].
+    - rewrite Er, Ec, Es. destruct (Nat.ltb_spec (j * R + i) (length s)); [reflexivity|lia].
+    - exfalso. assert (j * R + i < length s) by (apply G; reflexivity). lia.
+    - exfalso. assert (false = true) by (apply G; assumption). discriminate.
+    - reflexivity.
+  Qed.
+
+  Lemma tail_outer_eq i m : for_res (seq 0 tail_cols) (tail_body K s R i) m = tail_outer i m.
+  Proof.
+    destruct tail_consts as [Ec _]. rewrite Ec. unfold tail_outer.
+    apply for_res_ext. intros j st' _. apply tail_body_eq.
+  Qed.
+
+  Lemma tail_loop_for : forall fuel i m, wf_matrix 32 m -> i <= length m -> length m - i <= fuel ->
+    tail_loop K fuel s R i m = for_res (seq i (length m - i)) tail_outer m.
+  Proof.
+    destruct tail_consts as [_ Es].
+    induction fuel as [|f IH]; intros i m Hwf Hi Hf; cbn [tail_loop];
+      pose proof (tail_cond_iff i (length s) (length m)) as Hc;
+      destruct (tail_cond i 0 R (length s) (length m)).
+    - assert (i < length m) by (apply Hc; reflexivity). lia.
+    - assert (~ i < length m) by (intros H; apply Hc in H; discriminate).
+      replace (length m - i) with 0 by lia. reflexivity.
+    - assert (Hlt : i < length m) by (apply Hc; reflexivity).
+      replace (length m - i) with (S (length m - S i)) by lia. cbn [seq for_res].
+      rewrite tail_outer_eq. rewrite Es.
+      destruct (tail_inner_spec m i Hwf Hlt 32 (le_n _)) as (m1 & Hrun & Hwf1 & Hlen1 & _).
+      unfold tail_outer at 1 2. rewrite Hrun. cbn [rbind].
+      replace (i + 1) with (S i) by lia. rewrite IH by (auto; lia). rewrite Hlen1. reflexivity.
+    - assert (~ i < length m) by (intros H; apply Hc in H; discriminate).
+      replace (length m - i) with 0 by lia. reflexivity.
+  Qed.
+
+  (* ---------- the translated fill loop is fill_tail ---------- *)
+
+  Lemma fill_avx2_eq m : fill_avx2 K s R m = fill_tail K 32 R (length s) m.
+  Proof.
+    unfold fill_avx2, fill_tail.
+    assert (Elo : fill_lo 0 R (length s) (length m) 32 = length s) by (unfold fill_lo; lia).
+    assert (Ehi : fill_hi 0 R (length s) (length m) 32 = length m * 32) by (unfold fill_hi; lia).
+    rewrite Elo, Ehi. apply for_res_ext. intros k m' _.
+    unfold put_striped, fill_row, fill_col. reflexivity.
+  Qed.
 
 End Block.
 
@@ -255,10 +316,10 @@ Proof.
     { apply m_resize_wf. assumption. }
     { apply m_resize_length. }
     rewrite Hrun1. simpl.
-    rewrite tail_rows_is. rewrite Hlen1.
+    rewrite (tail_loop_for K s R R i1 m1 Hwf1) by lia. rewrite Hlen1.
     destruct (tail_outer_spec K s R (R - i1) i1 m1 Hwf1 ltac:(lia)) as (m2 & Hrun2 & Hwf2 & Hlen2 & Hc2).
     rewrite Hrun2. simpl.
-    unfold fill_tail. rewrite Hlen2, Hlen1.
+    rewrite fill_avx2_eq. unfold fill_tail. rewrite <- EL, Hlen2, Hlen1.
     assert (HL2 : L + (R * 32 - L) <= R * 32) by lia.
     destruct (put_loop_spec K 32 R (fun _ => wild K) (R * 32 - L) L m2 Hwf2 ltac:(lia) HL2)
       as (m3 & Hrun3 & Hwf3 & Hlen3 & Hc3).
